@@ -1,0 +1,82 @@
+//go:build verif
+
+package rux
+
+// Contracts for the deductive verifier in /verif (ruxvc). This file contains
+// comments only: it adds no code with or without the `verif` build tag.
+// Syntax: see /verif/DESIGN.md section 2.2. Each block starts with a target
+// line (func / loop / extern / trusted / functype / ghost / spec / impl).
+
+// ---------------------------------------------------------------------------
+// Ghost log of the *underlying* http.ResponseWriter (C08, C09, C19)
+//
+//@ ghost hdrCalls(ref) int
+//@ ghost hdrStatus(ref) int
+//@ ghost body(ref) string
+//@ ghost early(ref) bool
+//
+//@ extern (net/http.ResponseWriter).WriteHeader(self, statusCode)
+//@   modifies hdrCalls(self), hdrStatus(self)
+//@   ensures hdrCalls(self) == old(hdrCalls(self)) + 1
+//@   ensures hdrStatus(self) == statusCode
+//@ extern (net/http.ResponseWriter).Write(self, b) (n, err)
+//@   modifies body(self), early(self)
+//@   ensures 0 <= n && n <= len(b)
+//@   ensures body(self) == old(body(self)) ++ substr(bytes(b), 0, n)
+//@   ensures early(self) == (old(early(self)) || old(hdrCalls(self)) == 0)
+//@ extern (net/http.ResponseWriter).Header(self) (h)
+//@   pure
+//@ extern (net/http.Flusher).Flush(self)
+//@   modifies early(self)
+//@   ensures early(self) == (old(early(self)) || old(hdrCalls(self)) == 0)
+//
+//@ impl net/http.ResponseWriter: *responseWriter
+//
+//@ trusted debugPrint(f, v)
+//@   pure
+
+// ---------------------------------------------------------------------------
+// responseWriter (C08)
+//
+//@ spec committed(w *responseWriter) bool = w.length >= 0
+//@ spec wInv(w *responseWriter) bool = w.Writer != nil && !hastype(w.Writer, *responseWriter) && w.length >= -1 && w.status >= 0
+//@     && hdrCalls(w.Writer) == (w.length == -1 ? 0 : 1) && !early(w.Writer)
+//
+//@ func (*responseWriter).reset [C08, C10]
+//@   modifies w.status, w.length, w.Writer
+//@   ensures w.status == 0 && w.length == -1 && w.Writer == w2
+//
+//@ func (*responseWriter).WriteHeader [C08]
+//@   requires wInv(w)
+//@   modifies w.status
+//@   ensures inv: wInv(w)
+//@   ensures positive_recorded: status > 0 ==> w.status == status
+//@   ensures nonpositive_ignored: status <= 0 ==> w.status == old(w.status)
+//
+//@ func (*responseWriter).ensureWriteHeader [C08]
+//@   requires wInv(w)
+//@   modifies w.status, w.length, hdrCalls(w.Writer), hdrStatus(w.Writer)
+//@   ensures inv: wInv(w)
+//@   ensures committed: w.length >= 0
+//@   ensures first_commit: old(w.length) == -1 ==> hdrCalls(w.Writer) == 1 && w.length == 0
+//@       && hdrStatus(w.Writer) == (old(w.status) == 0 ? 200 : old(w.status)) && w.status == hdrStatus(w.Writer)
+//@   ensures only_once: old(w.length) >= 0 ==> w.length == old(w.length) && w.status == old(w.status)
+//@       && hdrCalls(w.Writer) == old(hdrCalls(w.Writer)) && hdrStatus(w.Writer) == old(hdrStatus(w.Writer))
+//
+//@ func (*responseWriter).Write [C08]
+//@   requires wInv(w)
+//@   modifies w.status, w.length, hdrCalls(w.Writer), hdrStatus(w.Writer), body(w.Writer), early(w.Writer)
+//@   ensures inv: wInv(w)
+//@   ensures committed: w.length >= 0
+//@   ensures body_appended: body(w.Writer) == old(body(w.Writer)) ++ substr(bytes(b), 0, n)
+//@   ensures length_counts: w.length == max(old(w.length), 0) + n && 0 <= n && n <= len(b)
+//@   ensures status_sent: old(w.length) == -1 ==> hdrStatus(w.Writer) == (old(w.status) == 0 ? 200 : old(w.status))
+//@   ensures status_kept: old(w.length) >= 0 ==> hdrStatus(w.Writer) == old(hdrStatus(w.Writer))
+//
+//@ func (*responseWriter).Flush [C08]
+//@   requires wInv(w) && implements(w.Writer, http.Flusher)
+//@   modifies w.status, w.length, hdrCalls(w.Writer), hdrStatus(w.Writer), early(w.Writer)
+//@   ensures inv: wInv(w)
+//@   ensures committed: w.length >= 0
+//@   ensures status_sent: old(w.length) == -1 ==> hdrStatus(w.Writer) == (old(w.status) == 0 ? 200 : old(w.status))
+//@   ensures body_kept: body(w.Writer) == old(body(w.Writer))
